@@ -100,6 +100,7 @@ impl<T: Write + Read + Seek> E57Writer<T> {
     pub fn register_extension(&mut self, extension: Extension) -> Result<()> {
         self.check_not_finalized()?;
         Extension::validate_name(&extension.namespace)?;
+        Extension::validate_url(&extension.url, &self.extensions)?;
         if self
             .extensions
             .iter()
